@@ -26,7 +26,7 @@ RULE = (
 )
 ASSUMPTIONS = [
     "attribute names are restricted to characters that can form an HTML attribute name (lower-case for html.parser)",
-    "appending to/with bool or None is not defined by the statement and is not generated",
+    "appending to/with True is not defined by the statement and is not generated; None / False are 'no value' wherever they occur (nothing is appended for them, an earlier None / False gives way to the first real value)",
     "SafeString values are only generated from text that is already valid escaped attribute content (they are emitted verbatim by design)",
 ]
 
@@ -139,9 +139,14 @@ def sanitize_attrs_case(case):
     kws = []
     for k, v, how in case["kws"]:
         prev = final.get(k)
-        if prev is not None and (prev[0] == "c" or v[0] == "c"):
+        # True meeting another value stays undefined; None / False are "no value" wherever they occur: nothing is appended
+        # for them and an earlier None / False is replaced by the first real value
+        if prev is not None and ((prev[0] == "c" and prev[1] is True) or (v[0] == "c" and v[1] is True)):
             continue
-        final[k] = ["s", "x"] if prev is not None else v
+        if prev is None or (prev[0] == "c" and prev[1] is not True):
+            final[k] = v
+        elif not (v[0] == "c"):
+            final[k] = ["s", "x"]
         kws.append([k, v, how])
     case["kws"] = kws
     return case
@@ -160,6 +165,11 @@ def expected_attrs(env, case):
     for k, v, _ in case["kws"]:
         v = pyval(env, v)
         if k in final:
+            if v is None or v is False:
+                continue
+            if final[k] is None or final[k] is False:
+                final[k] = v
+                continue
             final[k] = str(final[k]) + " " + str(v)
         else:
             final[k] = v
